@@ -15,8 +15,8 @@ type Ctx struct {
 	Tier  string
 	Seed  int64
 	Extra string // path of the JSON file with this run's random schemas ("" if none)
-	S    *Scratch
-	R    *Result
+	S     *Scratch
+	R     *Result
 }
 
 func (c *Ctx) Thorough() bool { return c.Tier == "thorough" }
